@@ -1,6 +1,7 @@
 // Driver for C13 (POP3 session = stable snapshot, deletes commit only on QUIT) and the POP3
 // wire part of C02.
 //
+//	bytes <mem|file> <init> <hexstream>      =>  the same observation for ONE raw byte stream, then EOF
 //	sess <mem|file>[:<cap>] <init> <events>  =>  <reply> ... S<box>=<handle>:<size>. ...
 //
 // init:   - | box;box..      box = <namehex>:<srchex>.<srchex>..   (messages delivered before the session)
@@ -234,6 +235,10 @@ func newStore(flavour string) (storage.Store, func()) {
 func exec(kind string, in []string) []string {
 	if kind == "stress" {
 		return execStress(in)
+	}
+	if kind == "bytes" && len(in) == 3 {
+		// one raw client byte stream in a single write, then EOF
+		return exec("sess", []string{in[0], in[1], "c" + in[2]})
 	}
 	if kind != "sess" || len(in) != 3 {
 		return []string{"UNKNOWN-KIND"}
